@@ -15,7 +15,8 @@ PROPS = {
     "C01": dict(
         verus=["tokenizer", "runlength", "gss", "xrefstream", "glyf", "guards", "predictor", "pngrows", "flatten", "bounded", "asciihex", "ascii85", "rotate"],
         standins=["a85hex"],
-        kani=[K("c01_hex_digit_value", "parser/filters.rs", "hex_digit_value")],
+        kani=[K("c01_hex_digit_value", "parser/filters.rs", "hex_digit_value"),
+              K("c01_calculate_offset_9_bytes_no_panic", "text/cmap.rs", "calculate_offset")],
         level_text="panic-freedom (index, slice range, overflow, division), termination and output bounds proved per listed function for all inputs; the whole-program 'never crashes' claim is NOT made",
         not_decided="the I/O shells (reader.rs, xref.rs parse/recovery, object_stream.rs, page_tree.rs), LZW dictionary growth, CCITT/JBIG2/DCT decoders, text extraction, allocation sizes, wall-clock bounds",
     ),
@@ -93,7 +94,7 @@ PROPS = {
         not_decided="ToUnicode text, CIDToGIDMap, glyph presence, the widths returned by get_glyph_widths, anything an independent extractor would check",
     ),
     "C16": dict(
-        verus=["rotate"],
+        verus=["rotate", "pagerange"],
         kani=[K("c16_from_degrees_all_i32", "operations/rotate.rs", "RotationAngle::from_degrees/to_degrees"),
               K("c16_combine", "operations/rotate.rs", "RotationAngle::combine")],
         not_decided="that output page k is input page order[k] with the same content, resources and boxes (Page::from_parsed_with_content; file I/O); MediaBox-origin handling",
